@@ -84,6 +84,12 @@ class Pool:
                                  "noback context \"d\" @145#30=1\nnoback context #30=1\"a\" @23456\n"
                                  "noback pass2 @12 @12#49=2\nnoback pass2 #49=2@14 @1456\n")
         self.lists.append(("var.ctb", "var"))
+        # a correct rule that lengthens the text: the main pass then works on positions the caller's arrays do not have
+        # (F36: stale typeform data behind the caller's input decided where the first call of a process stopped)
+        self.files["len.ctb"] = ("space \\s 0\nletter \\x0564 15\nletter l 123\nlowercase \\x04c5 456\nlowercase b 126\n"
+                                 "lowercase \\x04c4 12456\nlowercase c 1234\nlowercase f 1245\nnoback correct \"l\" \"bfl\"\n"
+                                 "nofor pass2 @456 @1245\n")
+        self.lists.append(("len.ctb", "len"))
         letters = [c for c in self.gen["g2.ctb"].chars() if c > 0x20][:6] or [0x61]
         pats = []
         for _ in range(12):
@@ -116,6 +122,9 @@ class Pool:
         name = lst.split(",")[0]
         if kind == "twin":
             outs = [[ord(c) for c in w] for w in ("zaaz", "ab z ba", "zzzz a")]
+        elif kind == "len":
+            outs = [[0x20, 0x20, 0x564, 0x4c5, 0x4c4, 0x62, 0x66, 0x63, 0x63, 0x6c, 0x4c4, 0x66], [0x6c, 0x4c4], [0x4c4, 0x6c, 0x6c, 0x4c5, 0x20, 0x6c, 0x564],
+                    [0x564, 0x20, 0x4c5, 0x6c, 0x4c4, 0x4c4, 0x4c4]]
         elif kind == "var":
             outs = [[ord(c) for c in w] for w in ("ab", "ac", "ad", "a", "c", "cb", "dcab", "b")]
         elif kind == "wide":
@@ -170,6 +179,10 @@ class Pool:
                     am &= ~16
                 cur = str(rng.randint(0, max(n - 1, 0))) if am & 16 else "-"
                 self.calls.append(("BWD", lst, "BWD %s %d %d %s %d %s - -" % (lst, mode, cap, cur, am, common.wide(b))))
+            if kind == "len":
+                for u in ins[:4]:
+                    for cap in (len(u) + 1, len(u) + 2, 2 * len(u) + 3):
+                        self.calls.append(("FWD", lst, "FWD %s %d %d - 12 %s - -" % (lst, rng.choice([0, 4]), cap, common.wide(u))))
             if kind == "twin":
                 for w in ("zaaz", "azza", "abzab z"):
                     for cap in (1, 2, 3, 12):
